@@ -44,6 +44,22 @@ impl OpeningHoursExpression {
             return kind == RuleKind::Closed;
         };
 
+        if tail.operator == RuleOperator::Fallback {
+            // A fallback rule only applies when previous rules leave nothing but closed periods,
+            // so they must either be closed or result in the same kind for the whole day.
+            let tail_idx = (self.rules.iter())
+                .position(|rs| std::ptr::eq(rs, tail))
+                .unwrap_or(0);
+
+            let head_is_compatible = self.rules[..tail_idx].iter().all(|rs| {
+                rs.kind == RuleKind::Closed || (rs.kind == kind && rs.time_selector.is_00_24())
+            });
+
+            if !head_is_compatible {
+                return false;
+            }
+        }
+
         tail.kind == kind && tail.is_constant()
     }
 
